@@ -235,6 +235,9 @@ CATALOGUE = [
     ('c10_self_locking_sin', 'C10', R,
      "            friction_coefficient > master.pressure_angle.cos() *\n            master.helix_angle.tan()",
      "            friction_coefficient > master.pressure_angle.cos() *\n            master.helix_angle.sin()"),
+    ('c10_self_locking_not_strict', 'C10', R,
+     "        master.self_locking = bool(\n            friction_coefficient > master.pressure_angle.cos() *",
+     "        master.self_locking = bool(\n            friction_coefficient >= master.pressure_angle.cos() *"),
     ('c10_numpy_bool_self_locking', 'C10', R,
      "        master.self_locking = bool(\n            friction_coefficient > master.pressure_angle.cos() *\n            master.helix_angle.tan()\n        )",
      "        master.self_locking = (\n            friction_coefficient > master.pressure_angle.cos() *\n            master.helix_angle.tan()\n        )"),
